@@ -458,6 +458,9 @@ structure ModSt where
 structure FileSt where
   md : ModDef
   src : FileSrc (List Nat) Rec
+  -- the property's view of the watched path: the file has not gone for good / a file is there
+  idealOpen : Bool := true
+  idealExists : Bool := true
 
 structure St where
   mods : List (String × ModSt) := []
@@ -543,6 +546,32 @@ def tagsOf (n : String) : Option (List Tag) :=
   | "hotspot.core" => some hotspotCoreTags
   | _ => (findMod n).map (·.tags)
 
+/-- a file operation: the as-is source runs the abstract events (`FileSrc.step`); the property's view delivers the
+    current content after a write / re-creation / replacement and the empty source after a removal or rename-away -/
+def fileOp (spec : Bool) (s : St) (arg : Option (List Nat)) (evs : List Nat → List (FileEv (List Nat))) (kind : String) :
+    St × Option String :=
+  match s.file, arg with
+  | some f, some bytes =>
+    -- op sequences that make no sense on a real path (they only arise while shrinking) are ill-formed
+    let illFormed := (kind = "recreate" && f.src.content.isSome) || (kind = "giveup" && !f.src.rewatching)
+      || (kind = "write" && f.src.content.isNone)
+    if illFormed then (s, some "bad-op") else
+    let src' := (evs bytes).foldl (FileSrc.step (fileConv f.md) (goEqv f.md) f.md.mo []) f.src
+    let ms := getMod s f.md.name
+    let asisDies := kind = "replace" && !f.src.closed && !f.src.rewatching
+    let (ideal, f') : List (List Nat) × FileSt :=
+      if !f.idealOpen then ([], f)
+      else if kind = "write" then (if f.idealExists then [bytes] else [], f)
+      else if kind = "remove" then ([[]], { f with idealOpen := false, idealExists := false })
+      else if kind = "rename" then (if f.idealExists then [[]] else [], { f with idealExists := false })
+      else if kind = "giveup" then ([], if f.src.rewatching then { f with idealOpen := false } else f)
+      else ([bytes], { f with idealExists := true })              -- recreate, replace
+    let ms' := ideal.foldl (fun m b => (deliverMod f.md m b).1) ms
+    let ms' := { ms' with hm := src'.hm, cause := if asisDies then "file-replace-over-closes-source" else ms'.cause }
+    let s' := setMod s f.md.name ms'
+    ({ s' with file := some { f' with src := src' } }, some (claim spec ms' "" ""))
+  | _, _ => (s, some "bad-op")
+
 def step (spec : Bool) (s : St) (ts : List String) (_line : String) : St × Option String :=
   match ts with
   | ["ds.handle", m, p] =>
@@ -579,29 +608,15 @@ def step (spec : Bool) (s : St) (ts : List String) (_line : String) : St × Opti
          let ms' := { ms' with hm := src.hm }
          let s' := setMod s m ms'
          let pre := if ok then "ok " else "err "
-         ({ s' with file := some { md := md, src := src } }, some (if r.isNone then "?" else claim spec ms' pre pre)))
-  | ["file.write", p] =>
-    (match s.file, payloadBytes p with
-     | some f, some bytes =>
-       let stp := FileSrc.step (fileConv f.md) (goEqv f.md) f.md.mo []
-       let src' := stp (stp f.src (.write bytes)) .proc
-       let active := !f.src.closed && f.src.content.isSome
-       let ms := getMod s f.md.name
-       let (ms', _) := if active then deliverMod f.md ms bytes else (ms, none)
-       let ms' := { ms' with hm := src'.hm }
-       let s' := setMod s f.md.name ms'
-       ({ s' with file := some { f with src := src' } }, some (claim spec ms' "" ""))
-     | _, _ => (s, some "bad-op"))
-  | ["file.remove"] =>
-    (match s.file with
-     | some f =>
-       let src' := FileSrc.step (fileConv f.md) (goEqv f.md) f.md.mo [] f.src .remove
-       let ms := getMod s f.md.name
-       let (ms', _) := if !f.src.closed then deliverMod f.md ms [] else (ms, none)
-       let ms' := { ms' with hm := src'.hm }
-       let s' := setMod s f.md.name ms'
-       ({ s' with file := some { f with src := src' } }, some (claim spec ms' "" ""))
-     | none => (s, some "bad-op"))
+         ({ s' with file := some { md := md, src := src, idealOpen := content.isSome, idealExists := content.isSome } },
+           some (if r.isNone then "?" else claim spec ms' pre pre)))
+  | ["file.write", p] => fileOp spec s (payloadBytes p) (fun c => [.write c, .proc]) "write"
+  | ["file.truncwrite", p] => fileOp spec s (payloadBytes p) (fun c => [.write c, .proc]) "write"
+  | ["file.remove"] => fileOp spec s (some []) (fun _ => [.remove]) "remove"
+  | ["file.rename"] => fileOp spec s (some []) (fun _ => [.renameAway]) "rename"
+  | ["file.recreate", p] => fileOp spec s (payloadBytes p) (fun c => [.recreate c]) "recreate"
+  | ["file.giveup"] => fileOp spec s (some []) (fun _ => [.giveUp]) "giveup"
+  | ["file.replace", p] => fileOp spec s (payloadBytes p) (fun c => [.replaceOver c]) "replace"
   | ["file.close"] => ({ s with file := none }, none)
   | _ => (s, some "bad-op")
 
